@@ -128,7 +128,7 @@ pub fn generate(cfg: &RunCfg, out: &mut Outcome) -> Scenario {
                         2 => t::pick(&["HEAD", "OPTIONS"]).to_string(),
                         _ => t::pick(&["get", "TRACE", "FOO", ""]).to_string(),
                     };
-                    let acrh = if t::chance(1, 2) { Some(t::pick(&["X-Custom", "content-type, x-a", "Authorization"]).to_string()) } else { None };
+                    let acrh = if t::chance(1, 2) { Some(t::pick(&["X-Custom", "content-type, x-a", "Authorization", "X_Trace_Id", "content-type,x_api_key", "X-Api.Version", "Content-Type, X-Client~Build", "a!#$%&'*+.^_`|~0"]).to_string()) } else { None };
                     Req { method: "OPTIONS".into(), path: r.path, acrm: Some(acrm), acrh, kind: format!("preflight/{}", r.kind), origin: 0 }
                 }
                 _ => Req { method: "OPTIONS".into(), path: r.path, acrm: None, acrh: None, kind: format!("options/{}", r.kind), origin: 0 },
